@@ -515,7 +515,10 @@ func runBatch(cfg batchCfg) {
 	wg.Wait()
 	// let late replies drain, then optionally hit idle reuse conns with surplus replies
 	time.Sleep(3 * time.Millisecond)
-	for _, a := range b.advs {
+	b.mu.Lock()
+	advs := append([]*connAdv(nil), b.advs...) // (a late dial goroutine may still append)
+	b.mu.Unlock()
+	for _, a := range advs {
 		a.flush(true)
 	}
 	time.Sleep(2 * time.Millisecond)
@@ -704,7 +707,10 @@ func wrapAround(n, held int, seed int64) {
 		rep.Nontrivial("wraparound|held-survived")
 	}
 	// release held calls: mark them returned-from-adversary's view by answering now
-	for _, a := range b.advs {
+	b.mu.Lock()
+	wadvs := append([]*connAdv(nil), b.advs...)
+	b.mu.Unlock()
+	for _, a := range wadvs {
 		a.mu.Lock()
 		for _, p := range a.late {
 			a.sendLocked(p, true, "r")
